@@ -433,6 +433,47 @@ class RecorderPolicy(RepoPolicy):
     def iter_raises(self, node, frame):
         return frozenset()
 
+    def truth_raises(self, test, frame):
+        # the truth value of what the wrapped function returned is computed by user code (__bool__ / __len__: numpy arrays
+        # and data frames raise ValueError); any other tested value is the framework's own or a plain container
+        if not isinstance(test, ast.Name):
+            return frozenset()
+        return self.excm.ordinary if test.id in self._user_value_names(frame) else frozenset()
+
+    def _user_value_names(self, frame):
+        """locals of frame.func that may hold what a wrapped body / plug-in returned (directly, through a conditional
+        expression, a plain copy `a = b`, or a module-level helper of the package applied to it)"""
+        key = ('uvn', frame.func.qualname)
+        memo = self.__dict__.setdefault('_uvn_memo', {})
+        if key in memo:
+            return memo[key]
+        memo[key] = set()
+        assigns = [(n.targets[0].id, n.value) for n in walk_own(frame.func.node)
+                   if isinstance(n, ast.Assign) and len(n.targets) == 1 and isinstance(n.targets[0], ast.Name)]
+        names = set()
+
+        def user(e):
+            if isinstance(e, ast.Name):
+                return e.id in names
+            if isinstance(e, ast.IfExp):
+                return user(e.body) or user(e.orelse)
+            if isinstance(e, ast.Call):
+                if self.call_target(e, frame).role in ('body', 'plugin'):
+                    return True
+                m = frame.func.module
+                if isinstance(e.func, ast.Name) and (e.func.id in m.functions or m.imports.get(e.func.id, '').startswith('playback.')):
+                    return any(user(a) for a in e.args)
+            return False
+        changed = True
+        while changed:
+            changed = False
+            for nm, v in assigns:
+                if nm not in names and user(v):
+                    names.add(nm)
+                    changed = True
+        memo[key] = names
+        return names
+
 
 class RecorderDomain(Domain):
     """Abstract semantics of the recorder: counts the events rules ask for, tracks None-ness of per-run fields."""
